@@ -184,3 +184,10 @@ pub fn ga_clone_from_slice<T: Clone, N: generic_array::ArrayLength<T>>(list: &[T
 
 /// no-op replacement for `zeroize::optimization_barrier` (inline asm, unsupported by Kani)
 pub fn noop_barrier<T: ?Sized>(_: &T) {}
+
+/// identity replacement for `subtle::black_box` (a `read_volatile` optimisation barrier, which CBMC models as a
+/// nondeterministic read: every constant-time select downstream would become symbolic). Used only by the harnesses that
+/// push *concrete* values through field arithmetic.
+pub fn identity_bb<T: Copy>(input: T) -> T {
+    input
+}
